@@ -202,7 +202,7 @@ func NewWorld(spec Spec) *World {
 	}
 	SeedRand(spec.Seed)
 	s := spec.Setup
-	w := &World{Spec: spec, Chain: NewChain(s.Members(), s.T), Keypers: map[int]*Keyper{}, byz: map[int]map[uint64]*byzState{}, EonStart: map[uint64]int64{}, nonce: 1 << 40}
+	w := &World{Spec: spec, Chain: NewChain(s.GenesisMembers(), s.GenesisThreshold()), Keypers: map[int]*Keyper{}, byz: map[int]map[uint64]*byzState{}, EonStart: map[uint64]int64{}, nonce: 1 << 40}
 	for i := 0; i < s.N; i++ {
 		if _, ok := spec.Byz[i]; ok {
 			w.ByzIdx = append(w.ByzIdx, i)
